@@ -109,6 +109,9 @@ func main() {
 	case "C08":
 		res.Rule = "termination causes {handler close, context cancel, connection loss (fin/rst/blackhole; armed on the channel-id response at 5 byte positions, or cut later), client close, cancel racing loss, loss then close, handler close racing cancel} x instants {at start, after the first value, mid-stream, with values buffered behind a stalled consumer} x {reconnecting, no-reconnect} x 1..3 subscriptions; per subscription the hook trace is replayed through the model; every channel must close; distinct = (cause, instant, reconnect, fault, k, n); every case non-trivial"
 		err = stream.RunTermination(d, res, *seed, thorough)
+		if err == nil {
+			err = corr.SubRegVsSweep(d, res, *seed, "loss")
+		}
 	case "C09":
 		res.Rule = "bodies generated from a JSON-RPC grammar and its mutations; distinct = distinct (kind, canonical reply, invocation list); non-trivial = a handler ran, or the reply has more than one token, or status != 200"
 		err = c09.Run(d, res, *seed, n(4000, 80000), corpus)
